@@ -95,7 +95,7 @@ def check(rec, kind, idx, rng, tier):
         zd = gen.mk(zones, chunks=chz, **geom); vd = gen.mk(values, chunks=chv, **geom)
         with dask.config.set(**skw):
             got = rec.call(lambda: stats(zd, vd, **kw).compute())
-        if idx == 0:
+        if len(rec.samples) < 1:
             rec.sample(base)
         if hasattr(ref, 'exc'):
             rec.rej('numpy_backend_raises'); return
